@@ -1,6 +1,7 @@
 /- driver for C20: schedule matchers, evaluation and the interpreter task -/
 import BacVerif.Drv.Common
 import BacVerif.Model.Schedule
+import BacVerif.Lemmas.SchedSpec
 open Lean BacVerif BacVerif.Drv BacVerif.Sched
 
 def natList (j : Json) : R (List Nat) := do (← j.getArr?).toList.mapM (·.getNat?)
@@ -132,6 +133,24 @@ def handle (j : Json) : R Json := do
       let y ← fldNat j "y"
       let e ← entryOfJson (← fld j "e")
       pure (jOk [("bits", String.ofList ((daysOfYear y).map fun d => bitOf (dateInEntry d e)))])
+  | "yearspec" => -- the DECLARATIVE meaning of the entry (Lemmas/SchedSpec) for every day of a year
+      let y ← fldNat j "y"
+      let e ← entryOfJson (← fld j "e")
+      let days := daysOfYear y
+      let bits := if decide (WFEntry e) then
+          days.map fun d => if decide (ValidTuple d) then (if decide (DenotesEntry e d) then '1' else '0') else 'v'
+        else days.map fun _ => '-'
+      pure (jOk [("bits", String.ofList bits)])
+  | "specday" => -- the DECLARATIVE value (specValue) and the theorems' hypotheses for this input
+      let cfg ← cfgOfJson (← fld j "cfg")
+      let d ← dateOfJson (← fld j "d")
+      let ts ← (← fldArr j "times").toList.mapM timeOfJson
+      let hyp := decide (ValidCfg cfg) && decide (SortedCfg cfg) && decide (ProperCfg cfg) &&
+        decide (ValidTuple d)
+      pure (jOk [("hyp", hyp), ("res", Json.arr (ts.map fun t =>
+        match specValue cfg d t with
+        | none => Json.str "out"
+        | some v => Json.num v).toArray)])
   | "cal" =>     -- the model's calendar of a year
       let y ← fldNat j "y"
       pure (jOk [("first", dayNum y 1 1), ("leap", isLeap y),
